@@ -3,6 +3,7 @@ LEVEL = "proof"
 
 
 def check(rep, tier):
-    from contracts import tracer_ftba, tracer_primitive
+    from contracts import tracer_ftba, tracer_primitive, tracer_trace
     tracer_ftba.run(rep, tier, clauses=("FT1", "FT2", "FT3"))
     tracer_primitive.run(rep, tier)
+    tracer_trace.run(rep, tier)
